@@ -394,7 +394,7 @@ class Model:
             try:
                 if op == "+":
                     if isinstance(a, (list, tuple)) and isinstance(b, (list, tuple)) and type(a) is not type(b):
-                        raise Unknown("list + tuple")
+                        raise ModelError(f"TypeError: can only concatenate {type(a).__name__} (not {type(b).__name__!r}) to {type(a).__name__}")
                     return a + b
                 if op == "-":
                     return a - b
@@ -404,7 +404,14 @@ class Model:
                     return a // b
                 if op == "%":
                     return a % b
-            except TypeError:
+            except TypeError as e:
+                # both operands are fully concrete model values: Python itself rejects the operation (e.g. tuple + int)
+                def concrete(x):
+                    if isinstance(x, (list, tuple)):
+                        return all(concrete(y) for y in x)
+                    return x is None or isinstance(x, (int, float, str, bool))
+                if concrete(a) and concrete(b):
+                    raise ModelError(f"TypeError: {e} ({a!r} {op} {b!r})")
                 raise Unknown(f"{op} on {a!r}, {b!r}")
         return Opq("binop", op, a, b)
 
@@ -460,6 +467,25 @@ class Model:
             nm = fn[1]
             if nm in self.funcs:
                 args, kwargs = self.args_of(t)
+                if kwargs and self.evaluator is not None and nm.startswith("genjax."):
+                    # a modelled repo function called by keyword: keywords continuing the positional prefix are positional arguments
+                    # (the real signature decides the order), so the model of the function sees one calling convention
+                    import ast as _ast
+                    try:
+                        look = self.evaluator.p.lookup(nm)
+                    except Exception:
+                        look = None
+                    if look is not None and look[0] in ("func", "method") and isinstance(look[1], _ast.FunctionDef):
+                        fields = [a.arg for a in look[1].args.args]
+                        static = any(isinstance(d, _ast.Name) and d.id == "staticmethod" for d in look[1].decorator_list)
+                        if look[0] == "method" and not static and fields and fields[0] in ("self", "cls"):
+                            fields = fields[1:]
+                        args = list(args)
+                        for f_ in fields[len(args):]:
+                            if f_ in kwargs:
+                                args.append(kwargs.pop(f_))
+                            else:
+                                break
                 return self.funcs[nm](*args, **kwargs)
             if nm.startswith(BUILTIN):
                 b = nm[len(BUILTIN):]
